@@ -53,13 +53,14 @@ def c_iforest(trees):
 
 KIND = {"call": "Call", "return": "Return", "c_call": "CCall", "c_return": "CReturn", "c_exception": "CException"}
 LIB = {"NONE": "LNone", "SINGLE": "LSingle", "NESTED": "LNested"}
+PATT = {None: "PRegex", "regex": "PRegex", "bogus": "PRegex", "glob": "PGlob", "simple": "PSimple"}
 
 
 def c_case(k):
     env = "None" if k["env"] is None else "(Some [%s])" % "; ".join(cs(p) for p in k["env"])
-    return ("{| k_env := %s; k_lib := %s; k_pymain := %s;\n   k_funcs := [%s];\n   k_forests := [%s];\n   k_raw := [%s];\n"
+    return ("{| k_patt := %s; k_env := %s; k_lib := %s; k_pymain := %s;\n   k_funcs := [%s];\n   k_forests := [%s];\n   k_raw := [%s];\n"
             "   k_hooks := [%s];\n   k_symtab := [%s] |}") % (
-        env, LIB[k["lib"]], c_opt(k["pymain"]),
+        PATT[k.get("patt")], env, LIB[k["lib"]], c_opt(k["pymain"]),
         "; ".join(c_func(f) for f in k["rfuncs"]),
         "; ".join(c_iforest([t]) for t in k["forest"]),
         "; ".join("(%s, %d%%nat)" % (KIND[kd], i) for kd, i in k["raw"]),
@@ -101,6 +102,10 @@ def func_universe(rng, pymain):
     u.append((py(None, "na", "/m/d/n.py"), "no-modname-maindir"))
     u.append((py(None, "nb", "/u/l/n.py", modkind="int"), "modname-not-str"))
     u.append((py("builtins", "fa", "/u/l/b.py"), "libpy"))
+    if rng.random() < 0.15:
+        # two functions with one name and different library flags: the first one seen wins
+        u.append((py(None, "mm.ga", "/u/l/x.py"), "name-collision"))
+        u.append((py(None, "lb.ha", "/m/d/y.py"), "name-collision"))
     for e in CPOOL:
         u.append(({"t": "c", "expr": e}, "cfunc"))
     return u
@@ -142,6 +147,30 @@ def gen_pattern(rng, names):
     return p or n
 
 
+def gen_glob(rng, names):
+    """fnmatch patterns within the modelled subset: '*', '?', literals ('.', '^', '$', '<' are literals)"""
+    n = rng.choice(names)
+    k = rng.randrange(7)
+    if k == 0:
+        p = n[:rng.randrange(1, min(4, len(n)) + 1)] + "*"
+    elif k == 1:
+        p = "*" + n[-rng.randrange(1, min(5, len(n)) + 1):]
+    elif k == 2:
+        i = rng.randrange(len(n))
+        p = n[:i] + "?" + n[i + 1:]
+    elif k == 3:
+        i, j = sorted((rng.randrange(len(n) + 1), rng.randrange(len(n) + 1)))
+        p = n[:i] + "*" + n[j:]
+    elif k == 4:
+        p = "*" + n[rng.randrange(len(n)):][:3] + "*"
+    elif k == 5:
+        p = rng.choice(["*", "?*", "*.*", n + "*", n + "?", "**" + n[1:]])
+    else:
+        p = n
+    p = "".join(c for c in p if c not in "[]\\;!@")
+    return p or n
+
+
 def gen_forest(rng, nf, is_c, budget, maxdepth):
     def node(d):
         budget[0] -= 1
@@ -179,6 +208,7 @@ def gen_case(rng, allow_mixed=True):
     funcs = [p[0] for p in picks]
     tags = set("fn:" + p[1] for p in picks)
     names = [fname_guess(f) for f in funcs]
+    patt = rng.choice([None, None, None, None, "glob", "glob", "simple", "regex", "bogus"])
     r = rng.random()
     if r < 0.22:
         env = None
@@ -189,7 +219,7 @@ def gen_case(rng, allow_mixed=True):
         n = rng.choice([1, 1, 2, 3])
         env = []
         for j in range(n):
-            p = gen_pattern(rng, names)
+            p = gen_glob(rng, names) if patt == "glob" and rng.random() < 0.8 else gen_pattern(rng, names)
             out = (kind == "N") or (kind == "FN" and (j % 2 == 1 or rng.random() < 0.3))
             env.append(("!" if out else "") + p)
         if kind == "FN" and not any(e.startswith("!") for e in env):
@@ -212,7 +242,9 @@ def gen_case(rng, allow_mixed=True):
         pys = [i for i in range(len(funcs)) if not is_c[i]]
         raw = [("return", rng.choice(pys)) for _ in range(rng.randrange(1, 4))]
         tags.add("returns-of-frames-never-called")
-    return {"env": env, "lib": lib, "pymain": pymain, "funcs": funcs, "forest": forest, "raw": raw, "tags": sorted(tags)}
+    tags.add("patt:" + str(patt))
+    return {"patt": patt, "env": env, "lib": lib, "pymain": pymain, "funcs": funcs, "forest": forest, "raw": raw,
+            "tags": sorted(tags)}
 
 
 WITNESSES = [
@@ -299,6 +331,8 @@ class Impl:
             env["UFTRACE_PYMAIN"] = k["pymain"]
         if k["env"] is not None:
             env["UFTRACE_FILTER"] = ";".join(k["env"])
+        if k.get("patt"):
+            env["UFTRACE_PATTERN"] = k["patt"]
         if k["lib"] != "SINGLE":
             env["UFTRACE_PY_LIBCALL"] = k["lib"]
         try:
@@ -341,18 +375,21 @@ class Impl:
 
 
 def case_json(k):
-    return {kk: k[kk] for kk in ("env", "lib", "pymain", "funcs", "forest", "raw")}
+    return {kk: k.get(kk) for kk in ("patt", "env", "lib", "pymain", "funcs", "forest", "raw")}
 
 
 def evaluate(ctx, cases, name="cases"):
     defs = "Definition cases : list case := [\n%s\n].\n" % ";\n".join(c_case(k) for k in cases)
     # judged by the specification: well-formed streams, also when followed by returns of frames that were never
     # called under the profiler (a script ended by an exception)
-    defs += ("Definition wf (k : case) : bool := forallb (fun p => match fst p with Return => true | _ => false end) (k_raw k).\n")
+    # ... over a function table whose names determine the symbols (hypotheses of C19_trace_python_spec)
+    defs += ("Definition wf (k : case) : bool := forallb (fun p => match fst p with Return => true | _ => false end) (k_raw k)"
+             " && consistentb (option_map main_dir_of (k_pymain k)) (k_funcs k).\n")
     res = coq.run_cases(ctx, name, PRE, defs, [
         ("mismatch", "bad_indices agrees cases 0"),
         ("violations", "bad_indices (fun k => negb (wf k) || ok_case k) cases 0"),
         ("unbalanced", "bad_indices (fun k => negb (wf k) || ok_balanced k) cases 0"),
+        ("not_judged", "bad_indices wf cases 0"),
     ])
     if res is None:
         return None
@@ -403,6 +440,7 @@ def scripted_verdict(ctx, cases, res):
                       {"mode": "scripted", "correspondence": "C19.Model.trace_python vs uftrace_trace_python",
                        "case": case_json(k), "impl_hooks": k["hooks"], "impl_symtab": k["symtab"]}, False)
     ctx.extra["disagreements_checked"] = ctx.extra.get("disagreements_checked", 0) + len(cases)
+    ctx.extra["scripted_cases_judged_by_specification"] = len(cases) - len(res.get("not_judged", []))
 
 
 # --------------------------------------------------------------------------- entry points
